@@ -9,20 +9,26 @@ type SlotOwner struct {
 	SlotRightBoundary int
 }
 
+// KeyToSlot implements Redis Cluster's HASH_SLOT : only the bytes between the first '{' and
+// the first '}' after it are hashed, when there is at least one byte between them
 func KeyToSlot(key string) uint16 {
-	hashtag := ""
-	for i, s := range key {
-		if s == '{' {
-			for k := i; k < len(key); k++ {
-				if key[k] == '}' {
-					hashtag = key[i+1 : k]
-					break
-				}
-			}
+	var s, e int
+	for s = 0; s < len(key); s++ {
+		if key[s] == '{' {
+			break
 		}
 	}
-	if len(hashtag) > 0 {
-		return digest.Crc16(hashtag) & 0x3fff
+	if s == len(key) {
+		return digest.Crc16(key) & 0x3fff
 	}
-	return digest.Crc16(key) & 0x3fff
+
+	for e = s + 1; e < len(key); e++ {
+		if key[e] == '}' {
+			break
+		}
+	}
+	if e == len(key) || e == s+1 {
+		return digest.Crc16(key) & 0x3fff
+	}
+	return digest.Crc16(key[s+1:e]) & 0x3fff
 }
